@@ -20,6 +20,7 @@ import (
 const modulePath = "grog"
 
 type Program struct {
+	specFnRetType map[string]types.Type // Go result types of spec functions declared with a pointer result
 	RepoDir  string
 	Fset     *token.FileSet
 	Pkgs     []*packages.Package
